@@ -48,6 +48,7 @@ import BioCantor.Proofs.GbWriteFc
 import BioCantor.Proofs.GbModes
 import BioCantor.Proofs.GbRoundTrip
 import BioCantor.Proofs.GbRtColl
+set_option autoImplicit false   -- an unresolved name in a statement must be an error, never a bound variable
 namespace BioCantor.Props.C12
 open BioCantor BioCantor.Spec.Qual BioCantor.Spec.Gb BioCantor.Model.Gb BioCantor.Proofs.Gb
 
